@@ -290,6 +290,24 @@ theorem legacy_column (ds : Nat → V) (names : List N) (w : Bool) (k i j : Nat)
     (lrun ds names w k i st).1[j]? = some (lrun ds names w (j + 1) i st).2.1 :=
   lrun_get ds names w k i j st hj
 
+/-- **legacy_warmup_then_sample** — the first call `sample(Ns, Nb)`: starts from the densities'
+    `init_point`s (else ones), stores the `Nb` post-sweep tuples of the warm-up in `samples_warmup`,
+    then continues from the values the warm-up ended with and stores the `Ns` post-sweep tuples of
+    the sampling phase in `samples` (what is returned). -/
+theorem legacy_warmup_then_sample (ds : Nat → V) (g : LG N V) (Ns Nb : Nat)
+    (hw : g.warm = none) (hs : g.samples = none) :
+    lsample ds g Ns Nb =
+      let w := lrun ds g.names true Nb 0 (linit0 g, g.pos, g.log)
+      let r := lrun ds g.names false Ns 0 w.2
+      .ok { g with samples := some r.1, warm := some w.1, pos := r.2.2.1, log := r.2.2.2 } :=
+  lsample_fresh ds g Ns Nb hw hs
+
+/-- a second warm-up is refused (`ValueError`), whatever was run before -/
+theorem legacy_second_warmup_refused (ds : Nat → V) (g : LG N V) (Ns Nb : Nat) (c : N → V)
+    (hi : linit g = .ok c) (hw : g.warm.isSome = true) (hNb : Nb ≠ 0) :
+    lsample ds g Ns Nb = .error .valueError := by
+  simp [lsample, hi, hw, hNb]
+
 /-- **legacy_continue_eq_uninterrupted_partial** — `sample(a)` followed by `sample(b)` is `sample(a+b)`
     (no warm-up in either; same stream), *provided the first call stored at least one column*
     (`a ≥ 1`; for `a = 0` see the counterexample below). -/
